@@ -58,6 +58,16 @@ pub struct PaymentSpec {
     pub drain_parts: u8,
 }
 
+impl Scenario {
+    /// configuration in force during lifetime `life` (0-based)
+    pub fn cfg_at(&self, life: u32) -> &Cfg {
+        match (&self.cfg_later, life) {
+            (Some(c), l) if l >= 1 => c,
+            _ => &self.cfg,
+        }
+    }
+}
+
 impl PaymentSpec {
     pub fn preimage_bytes(&self) -> [u8; 32] {
         [self.preimage; 32]
@@ -212,6 +222,16 @@ pub struct Scenario {
     /// (index of the listdatastore answer counted over the whole scenario, error code): the state read alone fails
     #[serde(default)]
     pub ds_read_faults: Vec<(u8, i32)>,
+    /// payments that an earlier run (of the release this harness is pinned to) completed: a `Succeeded` record in
+    /// that release's stored format and a complete part exist before anything runs
+    #[serde(default)]
+    pub initial_succeeded: Vec<u8>,
+    /// configuration of every lifetime after the first (the operator changed options before restarting)
+    #[serde(default)]
+    pub cfg_later: Option<Cfg>,
+    /// the failure-notification service (e-mail) never returns
+    #[serde(default)]
+    pub notif_stall: bool,
 }
 
 #[derive(Clone, Copy, Debug, Serialize, Deserialize, PartialEq, Eq, Hash)]
@@ -558,6 +578,8 @@ pub struct Profile {
     pub read_faults: bool,
     /// failing listdatastore answers only (the stored-state read)
     pub ds_read_faults: bool,
+    /// some scenarios start with payment 0 already paid by an earlier run (record in the pinned stored format)
+    pub golden_records: bool,
     pub heights: bool,
     pub steps: std::ops::Range<usize>,
     pub mpp_choices: &'static [u64],
@@ -588,6 +610,7 @@ impl Default for Profile {
             write_faults: true,
             read_faults: false,
             ds_read_faults: false,
+            golden_records: false,
             heights: true,
             steps: 0..40,
             mpp_choices: &[0, 5, 10, 60, 60, 60, 120],
@@ -937,11 +960,12 @@ pub fn scenario_strategy(prof: Profile) -> BoxedStrategy<Scenario> {
             } else {
                 Just(vec![]).boxed()
             };
-            let rf = (rf, dsrf);
+            let golden = if prof.golden_records { prop_oneof![2 => Just(vec![]), 1 => Just(vec![0u8])].boxed() } else { Just(vec![]).boxed() };
+            let rf = (rf, dsrf, golden);
             let probe = prof.probe;
             let holds = prop_oneof![3 => Just(vec![]), 2 => (0u16..28, 4u16..45).prop_map(|h| vec![h])];
             (Just(cfg), pays, plans, steps, wf, rf, any::<u64>(), Just(start_height), proptest::collection::vec(any::<u16>(), 12), holds).prop_map(
-                move |(cfg, payments, plans, steps, write_faults, (read_faults, ds_read_faults), tokio_seed, start_height, shuffle, hold)| {
+                move |(cfg, payments, plans, steps, write_faults, (read_faults, ds_read_faults, initial_succeeded), tokio_seed, start_height, shuffle, hold)| {
                     // Known finding of C12 excluded by construction: when amount*ppm exceeds u64 the
                     // plugin's fee test is conservatively false; such amounts (> u64::MAX/ppm msat) are clamped.
                     let mut payments = payments;
@@ -961,7 +985,7 @@ pub fn scenario_strategy(prof: Profile) -> BoxedStrategy<Scenario> {
                             htlcs.swap(i, j);
                         }
                     }
-                    Scenario { cfg, payments, htlcs, steps, write_faults, read_faults, start_height, tokio_seed, c16_profile: false, probe, direct: vec![], initial_parts: vec![], manual_getinfo: false, crash_at: vec![], freeze: None, hold, freeze_polls: false, initial_pending: vec![], ds_read_faults }
+                    Scenario { cfg, payments, htlcs, steps, write_faults, read_faults, start_height, tokio_seed, c16_profile: false, probe, direct: vec![], initial_parts: vec![], manual_getinfo: false, crash_at: vec![], freeze: None, hold, freeze_polls: false, initial_pending: vec![], ds_read_faults, initial_succeeded, cfg_later: None, notif_stall: false }
                 },
             )
         })
